@@ -258,7 +258,9 @@ if __name__ == '__main__':
     unit = sys.argv[1]
     root = os.path.dirname(os.path.dirname(os.path.abspath(__file__)))
     sc = tempfile.mkdtemp(prefix='s4verif.', dir='/var/tmp')
-    r = run_unit(unit, os.path.join(root, 'contracts', unit, 'unit.rs'), os.environ.get('S4_REPO', '/repo'), sc)
+    # `UNIT` or `UNIT:DIR` (a unit that shares another unit's template file, regions selected by //@ifunit)
+    unit, _, udir = unit.partition(':')
+    r = run_unit(unit, os.path.join(root, 'contracts', udir or unit, 'unit.rs'), os.environ.get('S4_REPO', '/repo'), sc)
     keep = {k: v for k, v in r.items() if k not in ('cuts', 'clauses')}
     json.dump(keep, open('/var/tmp/vr_last.json', 'w'), indent=1)
     print('generated:', r.get('generated'))
